@@ -367,6 +367,7 @@ theorem demo_census : programLabelDefs oN demoProg =
 def demoLines : List Line := match emitProgram oN demoProg with | .ok ls => ls | .error _ => []
 theorem demo_emit : emitProgram oN demoProg = .ok demoLines := rfl
 
+set_option maxRecDepth 8000 in
 /-- the output, rendered -/
 example : String.join (demoLines.map Line.render) =
     "Main::\n\tlock\n\tgoto Main_3\n\nMain_1:\nDone::\n\trelease\n\treturn\n\nMain_2:\n\tmsgbox Main_Text_0, MSGBOX_DEFAULT\nInner:\n\tgoto Main_1\n\nMain_3:\n\tgoto_if_set F, Main_2\n\tgoto Main_1\n\n\nx\n\nAux:\n\tapplymovement 2, Walk\n\treturn\n\n\nWalk:\n\twalk_up\n\tstep_end\n\n\t.align 2\nShop:\n\t.2byte ITEM_A\n\t.2byte ITEM_NONE\n\nM::\n\tmap_script ON_LOAD, M_ON_LOAD\n\tmap_script ON_RESUME, Elsewhere\n\tmap_script ON_FRAME, M_ON_FRAME\n\t.byte 0\n\nM_ON_LOAD:\n\tnop\n\treturn\n\nM_ON_FRAME:\n\tmap_script_2 VAR_X, 1, Aux\n\t.2byte 0\n\n\nMain_Text_0:\n\t.string \"hi$\"\n\nT::\n\t.string \"x$\"\n" := by
@@ -444,11 +445,10 @@ def imit : Program :=
 theorem imit_accepted : ∃ ls, emitProgram oN imit = .ok ls := ⟨_, rfl⟩
 theorem imit_distinct : NamesDistinct imit := by decide
 theorem imit_imitates : ¬ NoImitation oN imit := by decide
-theorem imit_census : programLabels oN imit = ["A", "A_Text", "A_Text_1", "A_Text_2", "A_Text_0", "A_Text_1"] := by
+theorem imit_census : programLabels oN imit = ["A", "A_Text", "A_Text_1", "A_Text_2", "A_Text_3", "A_Text_0", "A_Text_1"] := by
   decide
 theorem imit_duplicate : ¬ (programLabels oN imit).Nodup := by decide
 
-#eval programLabels oN imit
 #print axioms labels_of_program
 #print axioms program_labels_defined_once
 #print axioms nodup_of_parts
